@@ -15,7 +15,9 @@ for i in ids:
             mods.append("BreezyVerif.%s.%s%s" % (sub, i, suf))
 out = ['name = "BreezyVerif"', 'version = "0.1.0"',
        "defaultTargets = [%s]" % ", ".join(['"BreezyVerif"'] + ['"vd_%s"' % i for i in ids]), "",
-       "[[lean_lib]]", 'name = "BreezyVerif"', 'globs = [%s]' % ", ".join('"%s"' % m for m in mods), ""]
+       "[[lean_lib]]", 'name = "BreezyVerif"', 'roots = ["BreezyVerif"]', 'globs = [%s]' % ", ".join('"%s"' % m for m in mods), "",
+       "# every module under BreezyVerif/ is buildable by name through this library (not a default target)",
+       "[[lean_lib]]", 'name = "BreezyVerifAll"', 'roots = ["BreezyVerif"]', 'globs = ["BreezyVerif.+"]', ""]
 alld = sorted(f[:-5] for f in os.listdir(os.path.join(LEAN, "BreezyVerif", "Driver"))
               if re.fullmatch(r"C\d+\.lean", f))
 for i in alld:
